@@ -61,6 +61,7 @@ func init() {
 		k.PKept = 20
 		k.PNegCap = 20
 		k.PNegBal = 18
+		k.POverUnity = 6
 		if tier == "thorough" {
 			k.MaxDepth = 4
 		}
